@@ -146,7 +146,7 @@ def tlc_lines(out_path, prefix):
                 yield json.loads(s[len(prefix) + 1:])
 
 
-TRACE_RESULT_RE = re.compile(r'<<"TRACE-RESULT", (\d+), \{([^}]*)\}>>')
+TRACE_RESULT_RE = re.compile(r'<<\s*"TRACE-RESULT",\s*(\d+),\s*\{([^}]*)\}\s*>>')
 
 
 def _validate_chunk(trace_module, cfg, chunk_path, wd, idx, timeout):
